@@ -337,5 +337,90 @@ func genAcctMod() {
 	}
 	l.p("/-- `DepositAccount` refuses a new value below `MinAccountValue` -/")
 	l.p("def depositChecksMin : Bool := %s", leanBool(depMin))
+	// WithdrawAccount: are outputs paying to the new account script refused?
+	wd := findFunc(acct, "manager.WithdrawAccount")
+	own := false
+	if wd == nil {
+		fail("WithdrawAccount not found")
+	} else {
+		ast.Inspect(wd.Body, func(n ast.Node) bool {
+			rs, ok := n.(*ast.RangeStmt)
+			if !ok || exprString(rs.X) != "outputs" {
+				return true
+			}
+			ast.Inspect(rs.Body, func(m ast.Node) bool {
+				if is, ok := m.(*ast.IfStmt); ok &&
+					exprString(is.Cond) == "bytes.Equal(out.PkScript, newAccountOutput.PkScript)" &&
+					len(is.Body.List) == 1 {
+
+					if _, ok := is.Body.List[0].(*ast.ReturnStmt); ok {
+						own = true
+					}
+				}
+				return true
+			})
+			return true
+		})
+	}
+	l.p("/-- `WithdrawAccount` refuses a requested output that pays to the new account script -/")
+	l.p("def withdrawRefusesOwnScript : Bool := %s", leanBool(own))
+
+	// determineWitnessType: the condition under which the expiry path is
+	// taken (all `if`s of the function, canonicalised, deduplicated).
+	dw := findFunc(acct, "determineWitnessType")
+	var conds []string
+	if dw == nil {
+		fail("determineWitnessType not found")
+	} else {
+		seen := map[string]bool{}
+		ast.Inspect(dw.Body, func(n ast.Node) bool {
+			if is, ok := n.(*ast.IfStmt); ok {
+				c := canonCmp(is.Cond)
+				if !seen[c] {
+					seen[c] = true
+					conds = append(conds, c)
+				}
+			}
+			return true
+		})
+		nAssign := 0
+		ast.Inspect(dw.Body, func(n ast.Node) bool {
+			if _, ok := n.(*ast.AssignStmt); ok {
+				nAssign++
+			}
+			return true
+		})
+		if nAssign > 0 {
+			conds = append(conds, "<local variables>")
+		}
+	}
+	l.p("/-- `determineWitnessType`: the distinct `if` conditions selecting the expiry witness -/")
+	l.p("def expiredConds : List String := %s", leanStrList(conds))
+
+	// spendAccount: lock time per witness type (`lockTime = X` in each case).
+	sp := findFunc(acct, "manager.spendAccount")
+	var lrows []string
+	for _, cc := range switchClauses(sp, "witnessType") {
+		if cc.List == nil {
+			continue
+		}
+		lt := ""
+		for _, st := range cc.Body {
+			if as, ok := st.(*ast.AssignStmt); ok && len(as.Lhs) == 1 &&
+				exprString(as.Lhs[0]) == "lockTime" {
+
+				lt = exprString(as.Rhs[0])
+			}
+		}
+		for _, e := range cc.List {
+			lrows = append(lrows, fmt.Sprintf("(%s, %q)", intConst(ace, "account", exprString(e)), lt))
+		}
+	}
+	sort.Strings(lrows)
+	if len(lrows) == 0 {
+		fail("spendAccount lock time switch not found")
+	}
+	l.p("/-- `spendAccount`: witness type -> expression assigned to the lock time -/")
+	l.p("def lockTimeSwitch : List (Nat × String) := [%s]", strings.Join(lrows, ", "))
 	l.p("end Pool.Gen.C07")
 }
